@@ -28,8 +28,8 @@ def observe(ad, rid, times=None, detail=False, style_catalogue=None, use_cache=F
     return rec
   ad2 = copy.deepcopy(ad)
   for k in retime_rng.sample(cands, min(len(cands), retime_rng.randint(1, 2))):
-    nb = retime_rng.choice([NONE_T, 2 * retime_rng.randrange(0, 4 * (D // 2) + 1)])
-    ne = retime_rng.choice([NONE_T, 2 * retime_rng.randrange(0, 8 * (D // 2) + 1)])
+    nb = retime_rng.choice([NONE_T, 2 * retime_rng.randrange(0, 4 * _unit(D) + 1)])
+    ne = retime_rng.choice([NONE_T, 2 * retime_rng.randrange(0, 8 * _unit(D) + 1)])
     ad2["b"][k], ad2["e"][k] = nb, ne
     elems[k].set_begin(None if nb == NONE_T else Fraction(nb, D))
     elems[k].set_end(None if ne == NONE_T else Fraction(ne, D))
@@ -38,6 +38,10 @@ def observe(ad, rid, times=None, detail=False, style_catalogue=None, use_cache=F
 
 
 NONE_T = -1
+
+
+def _unit(D):
+  return D // 2 if D < 10 ** 6 else 3
 
 
 def _may_paint(doc, ad):
